@@ -173,6 +173,41 @@ def wide_harness(u, n, b):
     return hgen.harness([u], body)
 
 
+def wide_index_harness(u, n, b, excl_f12b=True, twin=False):
+    """indices, distances and orderings for group sizes over the WHOLE numInGroup range (no entry is dereferenced: only addresses/indices are formed)"""
+    Pn = "%s_%s" % (n, b)
+    body = r"""
+  enum { N = 48, HDR = 8, SB = %(sb)d, SN = %(sn)d };
+  IN_BYTES(buf, N);
+  u64 rbl = ref_rd(buf + 0, 2, 0); VASSUME(rbl <= 2);
+  u64 gpos = HDR + rbl;
+  u64 bl = ref_rd(buf + gpos, SB, 0), cnt = ref_rd(buf + gpos + SB, SN, 0);
+  VASSUME(bl <= 65535); VASSUME(cnt <= 0xffffffffULL);      /* stride below 2^16, entry count anywhere in the numInGroup type up to 2^32-1: byte offsets stay below 2^48 (cbmc's pointer encoding with 10 object bits holds 53-bit offsets) */
+  u64 data0 = gpos + SB + SN;
+  IN(u64, i); IN(u64, j); VASSUME(i <= cnt && j <= cnt);
+  SELECT(which);
+  u64 smax = %(smax)s;   /* maximum of difference_type = make_signed<numInGroup type> */
+  if (which >= 2) { %(f12b)s }
+  if (which == 0) {
+    VASSUME(i < cnt); i64 a = -1; CALL(a = at_%(P)s(buf, N, i));
+    VASSERT(!verif_aborted, "no handler"); VASSERT(a == (i64)(data0 + i * bl), "entry i starts at data start + i x wire blockLength for EVERY index below numInGroup");
+  } else if (which == 1) {
+    VASSUME(cnt >= 1); i64 a = -1; CALL(a = back_%(P)s(buf, N));
+    VASSERT(!verif_aborted, "no handler"); VASSERT(a == (i64)(data0 + (cnt - 1) * bl), "back() is entry size()-1 for every group size of the type");
+  } else if (which == 2) {
+    u64 s = 0; i64 dist = -1; u32 fl = 9; CALL(s = size_%(P)s(buf, N)); CALL(fl = beginend_%(P)s(buf, N, &dist));
+    VASSERT(!verif_aborted, "no handler"); VASSERT(s == cnt && dist == (i64)cnt && (fl & 1) && ((fl >> 1) & 1) == (cnt == 0), "size()==numInGroup, end()-begin()==size(), begin()+size()==end() for every group size of the type");
+  } else if (which == 3) {
+    i64 dist = 0; u32 c = 0; CALL(c = cmp_%(P)s(buf, N, (i64)i, (i64)j, &dist));
+    VASSERT(!verif_aborted, "no handler"); VASSERT(dist == (i64)i - (i64)j, "distance of begin()+i and begin()+j is i-j for every pair of indices");
+    VASSERT(c == (u32)((i == j) | ((i != j) << 1) | ((i < j) << 2) | ((i <= j) << 3) | ((i > j) << 4) | ((i >= j) << 5)), "all six comparisons agree with the index comparison");
+  } else VASSUME(0);
+""" % {"sb": U[b], "sn": U[n], "P": Pn, "smax": "0x%xULL" % ((1 << (8 * U[n] - 1)) - 1),
+       "f12b": ("VASSUME(cnt > smax);   /* twin of open known finding F12b */" if twin else
+                ("VASSUME(cnt <= smax);   /* open known finding F12b: excluded input class (numInGroup beyond the range of difference_type), re-derived by its twin */" if excl_f12b else ""))}
+    return hgen.harness([u], body)
+
+
 def nested_harness(u, n, maxsz):
     body = r"""
   enum { N = 64, HDR = 8, S = %(s)d, MAXSZ = %(maxsz)d };
@@ -210,6 +245,9 @@ def nested_harness(u, n, maxsz):
     return hgen.harness([u], body)
 
 
+WIDE_QUICK = {("uint8", "uint8"), ("uint16", "uint16"), ("uint32", "uint32"), ("uint64", "uint64"), ("uint8", "uint32"), ("uint16", "uint64"), ("uint64", "uint8")}   # quick tier: every numInGroup type, every blockLength type
+
+
 def build(ctx):
     hs = []
     maxsz, maxbl, depth = ctx.q(3, 4), ctx.q(4, 5), ctx.q(3, 4)
@@ -234,6 +272,18 @@ def build(ctx):
                                         extra_flags=["--no-standard-checks"],
                                         desc="flat group numInGroup=%s blockLength=%s: operator[] / begin()[i] / back() addresses with header values over the whole type range" % (n, b),
                                         bounds={"blockLength": "full %s range (< 2^47)" % b, "numInGroup": "full %s range" % n, "i": "< 4", "std": "c++" + std, "build": mode}))
+                f12b = "F12b" in ctx.open
+                for (n, b) in chunk:
+                    if f12b and (n, b, mode, std) == ("uint8", "uint8", "checked", "17"):
+                        hs.append(P.Harness("flat_uint8_uint8_wideidx2_twin_F12b_cxx17", wide_index_harness(u, n, b, twin=True), [u], unwind=4, backends=["z3", "minisat"], cap=ctx.q(300, 900),
+                                            extra_flags=["--no-standard-checks"], defines=["VERIF_WHICH=2"], expect="refuted", witness=False, meta={"finding": "F12b"},
+                                            desc="twin of known finding F12b: end()-begin() for numInGroup > 127 (uint8)"))
+                    if ctx.quick and (n, b) not in WIDE_QUICK: continue
+                    for arm in range(4):
+                        hs.append(P.Harness("flat_%s_%s_wideidx%d_%s_cxx%s" % (n, b, arm, mode, std), wide_index_harness(u, n, b, excl_f12b=f12b), [u], unwind=4, backends=["z3", "minisat", "kissat"], cap=ctx.q(300, 900),
+                                            extra_flags=["--no-standard-checks"], defines=["VERIF_WHICH=%d" % arm],
+                                            desc="flat group numInGroup=%s blockLength=%s, arm %d of {0 operator[](i), 1 back(), 2 size/begin/end, 3 distance+comparisons of (i,j)} with numInGroup and the indices over the whole type range" % (n, b, arm),
+                                            bounds={"blockLength": "0..65535 (of %s)" % b, "numInGroup": "full %s range (<= 2^32-1)" % n, "i,j,k": "any index inside the group", "std": "c++" + std, "build": mode}))
             un = ctx.lower("c12n", cpp([], list(U)), std=std, mode=mode, incs=[inc])
             for n in U:
                 for arm in range(4):
